@@ -199,6 +199,39 @@ def run(ctx):
         ctx.ob('C25-INDEXTWIN.constant-and-computed-index-shift-at-the-same-bound', gi, st, ok,
                '' if ok else 'a computed string index is shifted to SUBSTR\'s 1-based position when [%s, i, %r], a constant one under a different condition: they disagree for '
                'index %s (s[i] with i evaluating to 0 must read the first character, not position 0 = empty string)' % (op_s, k_s, diff), node=st)
+    # ---------------------------------------------------------------- ABSPOS
+    # a length may be computed from `index_sql` only where index_sql is the absolute 1-based position.  Scenario: not PostgreSQL, constant negative
+    # start -- there index_sql is the negative number itself (MySQL/Oracle count it from the end), a *relative* position; no arithmetic SQL node
+    # (SUB/ADD) built in that scenario may contain it
+    from ..typestate import scenario_edges
+    g = cg.cfg(bs)
+    nabs = 0
+    for const_start in (True, False):
+        def rel_atom(text, node, const_start=const_start):
+            t = text.replace(' ', '')
+            if t.endswith("dialect=='PostgreSQL'") or t == 'is_postgres': return False
+            if t.endswith("dialect!='PostgreSQL'"): return True
+            if t == "start[0]=='VALUE'": return const_start
+            if t == "start[0]!='VALUE'": return not const_start
+            if t == 'startisNone': return False
+            if const_start and t == 'start_value<0': return True
+            if const_start and t == 'start_value>=0': return False
+            return None
+        eo = scenario_edges(g, bs.node, rel_atom)
+        live = g.reach([g.entry], edge_ok=eo)
+        # definitions of index_sql in the scenario: the negative constant itself / IF(i >= 0, i + 1, i) -- relative to the end for a negative start
+        rel_defs = [x for x in g.nodes if x.id in live and x.kind == 'stmt' and isinstance(x.ast, ast.Assign) and any(dotted(t) == 'index_sql' for t in x.ast.targets)]
+        ctx.need(rel_defs, 'C25-ABSPOS: no definition of index_sql on the generic path (%s start)' % ('constant' if const_start else 'computed'))
+        for x in g.nodes:
+            if x.id not in live or x.kind != 'stmt' or not isinstance(x.ast, ast.Assign) or x in rel_defs: continue
+            for l in [y for y in ast.walk(x.ast.value) if isinstance(y, ast.List) and y.elts and isinstance(y.elts[0], ast.Constant) and y.elts[0].value in ('SUB', 'ADD')]:
+                if any(isinstance(e, ast.Name) and e.id == 'index_sql' for e in l.elts[1:]):
+                    nabs += 1
+                    ctx.ob('C25-ABSPOS.length-uses-an-absolute-position', bs, x.ast, False,
+                           'for a negative %s start on the MySQL/Oracle/generic path index_sql is the negative offset itself (a position relative to the end), yet `%s` subtracts '
+                           'it as if it were the absolute position: s[-3:7] becomes substr(s, -3, 11) = the last three characters instead of s[5:7]'
+                           % ('constant' if const_start else 'computed', norm(x.ast)[:90]), node=x.ast, expected='an absolute position (LENGTH(s) - k) as in the PostgreSQL branch')
+    if not nabs: ctx.ob('C25-ABSPOS.length-uses-an-absolute-position', bs, bs.node, True, '')
 
 
 def bodies(node):
